@@ -3,9 +3,8 @@
 //! Vocabulary translation only.  A model word is a name (a number, see Stack.tla):
 //!   v < 20000         Val(v):      the U256 with limbs (v, v+2^32, v+2*2^32, v+3*2^32), least
 //!                                  significant first;
-//!   20000 + 33 j + n  Chunk(j,n):  the big-endian number of bytes 32j..32j+n-1 of the shared slice
-//!                                  followed (pad=right, Stack.tla's PadRight = TRUE) or preceded
-//!                                  (pad=left) by 32-n zero bytes.
+//!   20000 + 33 j + n  Chunk(j,n):  the big-endian number spelt by bytes 32j..32j+n-1 of the shared
+//!                                  slice (32-n zero bytes in the high-order places).
 //! A real word that is neither is projected as its hex string (which no expectation contains).
 //! The projection is Stack.tla's `Summary`: height, emptiness, the top `window` words one by one (top
 //! first), and the checksum sum(p * name(word at position p)) mod 65521 over the words below.
@@ -30,11 +29,10 @@ fn val(v: u64) -> U256 {
     U256::from_limbs([v, v + (1 << 32), v + (2 << 32), v + (3 << 32)])
 }
 
-fn chunk(s: usize, n: usize, pad_right: bool) -> U256 {
+fn chunk(s: usize, n: usize) -> U256 {
     let mut b = [0u8; 32];
-    let from = if pad_right { 0 } else { 32 - n };
     for k in 0..n {
-        b[from + k] = slice_byte(s + k);
+        b[32 - n + k] = slice_byte(s + k);
     }
     U256::from_be_bytes(b)
 }
@@ -54,13 +52,13 @@ pub struct St {
 }
 
 impl StackEngine {
-    fn new(window: usize, lens: &[usize], pad_right: bool) -> Self {
+    fn new(window: usize, lens: &[usize]) -> Self {
         let mut chunks: HashMap<U256, (usize, usize)> = HashMap::new();
         for &len in lens {
             let mut s = 0;
             while s < len {
                 let n = (len - s).min(32);
-                let w = chunk(s, n, pad_right);
+                let w = chunk(s, n);
                 if let Some(old) = chunks.insert(w, (s, n)) {
                     if old != (s, n) {
                         eprintln!("stack engine: chunk words {old:?} and {:?} coincide; choose other slice lengths", (s, n));
@@ -144,9 +142,9 @@ impl Engine for StackEngine {
     fn init(&self, _cfg: &Value) -> St {
         let mut st = Stack::new();
         for _ in 0..revm_interpreter::STACK_LIMIT {
-            st.push(U256::MAX).unwrap();
+            let _ = st.push(U256::MAX);
         }
-        while st.pop().is_ok() {}
+        while !st.is_empty() && st.pop().is_ok() {}
         St { st, res: "ok".into(), out: vec![], shown: None }
     }
 
@@ -206,7 +204,11 @@ impl Engine for StackEngine {
                 let bytes: Vec<u8> = (0..a).map(slice_byte).collect();
                 class(st.push_slice(&bytes))
             }
-            // SAFETY (both): Stack.tla enables these only when the stack holds enough words.
+            // SAFETY (both): Stack.tla enables these only when the model stack holds enough words; if
+            // the real stack has already diverged and does not, calling them would be undefined
+            // behaviour, so the call is not made and the projection says so.
+            "popn_unsafe" if st.len() < a => "precondition does not hold on the real stack".into(),
+            "popn_top_unsafe" if st.len() < a + 1 => "precondition does not hold on the real stack".into(),
             "popn_unsafe" => {
                 unsafe {
                     match a {
@@ -279,15 +281,28 @@ impl Engine for StackEngine {
 fn main() {
     let a = Args::parse();
     let lens: Vec<usize> = a.gets("lens", "").split(',').filter(|x| !x.is_empty()).map(|x| x.parse().unwrap()).collect();
-    let pad_right = match a.gets("pad", "right").as_str() {
-        "right" => true,
-        "left" => false,
-        p => panic!("pad={p}"),
-    };
-    let eng = StackEngine::new(a.geti("window", 20) as usize, &lens, pad_right);
+    let eng = StackEngine::new(a.geti("window", 20) as usize, &lens);
     match a.mode.as_str() {
         "edges" => run_edges(&eng, &a.input, a.output.as_deref()),
         "behaviours" => run_behaviours(&eng, &a.input, a.output.as_deref()),
+        // not part of the check: two observations about Stack's serde impls (see the C12 report)
+        "probe" => probe(),
         m => a.bad_mode(m),
     }
+}
+
+fn probe() {
+    let mut st = Stack::new();
+    for i in 1..=600 {
+        st.push(val(i)).unwrap();
+    }
+    let text = serde_json::to_string(&st).unwrap();
+    println!("Serialize gives {}...", &text[..40]);
+    println!("Deserialize of that text: {:?}", serde_json::from_str::<Stack>(&text).map(|s| s.len()).map_err(|e| e.to_string()));
+    let seq = serde_json::to_value(st.data()).unwrap();
+    let back: Stack = serde_json::from_value(seq).unwrap();
+    println!("Deserialize of the bare list from a size-hinting deserializer: len {} capacity {}", back.len(), back.data().capacity());
+    let mut back = back;
+    let r = std::panic::catch_unwind(std::panic::AssertUnwindSafe(|| back.push(val(7))));
+    println!("push afterwards: {:?}", r.map_err(|_| "panic"));
 }
